@@ -110,7 +110,7 @@ def jobs(tier):
 LEVEL = 'proof'
 TRUSTED = ['tools/cxx2c.py lowering (no native fidelity check for this unit: three loop-free functions, text compared by eye in DESIGN.md)']
 ASSUMPTIONS = [
-    'build_exec (build.cc): only the cases IFELSE ALT SCOPE CAPTURE CLOSE_STAR CLOSE_PLUS OR CAT READ BIND BLOCK FORMAT of its switch are lowered (cxx2c keep_cases; the other cases are dropped and reaching one is a failed obligation); the recursive call is an ASSUMED contract with a ghost call log (records tree, layout, scope, upstream; never shrinks the layout -- re-established for the lowered cases), operator constructors that take a layout reserve an arbitrary non-empty range at its end (contract of layout::reserve, C13), layout::add_union by its C13 contract (props/bx/bx_model.h)',
+    'build_exec (build.cc): only the cases IFELSE ALT SCOPE CAPTURE CLOSE_STAR CLOSE_PLUS OR CAT READ BIND BLOCK FORMAT SUBX_EVAL ASSERT of its switch are lowered (cxx2c keep_cases; the other cases are dropped and reaching one is a failed obligation); the recursive call is an ASSUMED contract with a ghost call log (records tree, layout, scope, upstream; never shrinks the layout -- re-established for the lowered cases), operator constructors that take a layout reserve an arbitrary non-empty range at its end (contract of layout::reserve, C13), layout::add_union by its C13 contract (props/bx/bx_model.h)',
     'alignment is a power of two (alignof of a C++ type always is) and sizes keep the area below 2^48 bytes',
     'add_union: std::vector<layout> by the generic (data,len,cap) model props/vecgen.h; contract states the lower bounds (never shrinks, at least as large as every alternative), not that it is exactly the maximum',
     'parse_esc_num: precondition = the scanner rules that call it (\\[0-3][0-7]?[0-7]? and \\x HEX HEX); strtoul by props/c13/libc_model.h (assumed contract on glibc); the operand of throw (message construction) is dropped',
